@@ -59,6 +59,8 @@ enum DefKind {
     Func,
     Service,
     PrimAlias,
+    /// a definition that is an alias of an optional type: opt t, null or reserved
+    OptAlias,
 }
 
 pub struct TyGen<'a> {
@@ -81,7 +83,7 @@ impl<'a> TyGen<'a> {
         SType::Prim(*rng.pick(&self.k.prims))
     }
     fn data_ref(&self, rng: &mut Rng) -> Option<SType> {
-        let c: Vec<usize> = (0..self.kinds.len()).filter(|i| matches!(self.kinds[*i], DefKind::Data | DefKind::PrimAlias)).collect();
+        let c: Vec<usize> = (0..self.kinds.len()).filter(|i| matches!(self.kinds[*i], DefKind::Data | DefKind::PrimAlias | DefKind::OptAlias)).collect();
         if c.is_empty() {
             None
         } else {
@@ -137,6 +139,13 @@ impl<'a> TyGen<'a> {
         let mut fs = Vec::new();
         for i in 0..n {
             let l = if tuple { SLabel::Id(i as u32) } else { gen_label(rng) };
+            // sometimes a field whose type is optional only through a named alias
+            if rng.chance(1, 7) {
+                if let Some(t) = self.kind_ref(rng, DefKind::OptAlias) {
+                    fs.push((l, t));
+                    continue;
+                }
+            }
             let mut t = self.data(rng, depth.saturating_sub(1));
             if rng.below(100) < self.k.opt_pct && !matches!(t, SType::Opt(_)) {
                 t = SType::opt(t);
@@ -185,6 +194,7 @@ pub fn gen_env(rng: &mut Rng, k: &TyKnobs) -> SEnv {
             0 if k.refs => DefKind::Func,
             1 if k.refs => DefKind::Service,
             2 => DefKind::PrimAlias,
+            3 => DefKind::OptAlias,
             _ => DefKind::Data,
         });
     }
@@ -195,6 +205,11 @@ pub fn gen_env(rng: &mut Rng, k: &TyKnobs) -> SEnv {
             DefKind::Func => g.func(rng, k.max_depth.saturating_sub(1)),
             DefKind::Service => g.service(rng, k.max_depth.saturating_sub(1)),
             DefKind::PrimAlias => SType::Prim(*rng.pick(&k.prims)),
+            DefKind::OptAlias => match rng.below(6) {
+                0 => SType::Prim(Prim::Null),
+                1 => SType::Prim(Prim::Reserved),
+                _ => SType::opt(g.data(rng, k.max_depth.saturating_sub(1))),
+            },
             DefKind::Data => {
                 // always a constructor at the top so that no name-only cycle can arise
                 match rng.below(6) {
@@ -217,6 +232,7 @@ pub fn gen_data_type(rng: &mut Rng, k: &TyKnobs, env: &SEnv) -> SType {
         .map(|i| match env.0.get(&def_name(i)) {
             Some(SType::Func { .. }) => DefKind::Func,
             Some(SType::Service(_)) => DefKind::Service,
+            Some(SType::Prim(Prim::Null)) | Some(SType::Prim(Prim::Reserved)) => DefKind::OptAlias,
             Some(SType::Prim(_)) => DefKind::PrimAlias,
             _ => DefKind::Data,
         })
